@@ -49,6 +49,10 @@ type caseState struct {
 	errored  map[string]bool // "<index>/<errno>" hit by an error injection
 	outcomes map[int]string  // per crash point: destination state after the kill
 	errOut   map[string]string
+	vanished map[int]bool    // ptrace-driven cases: the re-run issued fewer mutating calls than pass 1, nothing left to kill at this index
+	extra    int             // ptrace-driven cases: kills at indexes beyond pass 1's count (the re-run issued more calls)
+	extraEnd bool            // a kill run beyond the last index completed: the sweep is exhaustive
+	errGone  map[string]bool // ptrace-driven cases: the re-run had no call at this index to inject the error into
 }
 
 type job struct {
@@ -70,6 +74,10 @@ const rule = "case = (target primitive, destination state absent/present/other m
 	"an evaluation = one child execution judged by the state predicate; distinct non-trivial = (case signature, crash point, fault kind) whose pass-2 trace proves the fault hit that very call"
 
 func main() {
+	if len(os.Args) > 1 && os.Args[1] == stepperArg {
+		stepperMain(os.Args[2:])
+		return
+	}
 	if dir := os.Getenv("C17_READER_DIR"); dir != "" {
 		readerProcMain(dir)
 		return
@@ -128,6 +136,15 @@ func (e *engine) childSpec(j job) (vlib.ChildSpec, caseSpec) {
 	name := fmt.Sprintf("c%03d-trace", sp.Case)
 	wrap := []string{"strace", "-f", "-y", "-s", "40", "-e", "trace=%file,%desc", "-o", "strace.out"}
 	if j.inj != nil {
+		// Re-planned attempts probe neighbouring ordinals: calls of the Go runtime on the main
+		// thread (wake-up writes to its eventfd) can shift the count between two runs. Which
+		// call was really hit is always read back from the run's own trace.
+		inj := *j.inj
+		inj.Point.Ordinal += attemptDelta[j.attempt%len(attemptDelta)]
+		if inj.Point.Ordinal < 1 {
+			inj.Point.Ordinal = 1
+		}
+		j.inj = &inj
 		sp.Phase = "err"
 		tag := fmt.Sprintf("e%02d-%s", j.inj.Point.Index, j.inj.Errno)
 		arg := fmt.Sprintf("inject=%s:error=%s:when=%d", j.inj.Point.Name, j.inj.Errno, j.inj.Point.Ordinal)
@@ -146,13 +163,28 @@ func (e *engine) childSpec(j job) (vlib.ChildSpec, caseSpec) {
 	} else {
 		sp.TmpMount = "same"
 	}
+	if usesStepper(sp) {
+		// the download target is driven by the ptrace stepper (see stepper.go)
+		dir := filepath.Join(e.cfg.OutDir, "child", name)
+		roots := filepath.Join(dir, "sb") + ":" + filepath.Join(dir, "tmp")
+		if sp.CrossTmp != "" {
+			roots += ":" + sp.CrossTmp
+		}
+		mode := "record"
+		if j.inj != nil && j.inj.Kill {
+			mode = fmt.Sprintf("kill=%d", j.inj.Point.Index)
+		} else if j.inj != nil {
+			mode = fmt.Sprintf("err=%d:%s", j.inj.Point.Index, j.inj.Errno)
+		}
+		wrap = []string{e.cfg.BinPlain, stepperArg, "strace.out", roots, mode}
+	}
 	if sp.Target == tDownload {
 		sp.URL = e.srv.url(name, sp.Variant, sp.Seed, sp.NewSize)
 		if sp.Signed {
 			sp.TrustSignet = e.srv.trust
 		}
 	}
-	return vlib.ChildSpec{Name: name, Bin: e.cfg.BinPlain, Spec: sp, Timeout: 4 * time.Minute, Wrap: wrap, Env: env}, sp
+	return vlib.ChildSpec{Name: name, Bin: e.cfg.BinPlain, Spec: sp, Timeout: 4 * time.Minute, Wrap: wrap, Env: env, Keep: os.Getenv("C17_KEEP") != ""}, sp
 }
 
 // worldOf is the parent's view of a finished child.
@@ -175,17 +207,19 @@ func (e *engine) run() {
 		if sp.Signed && e.srv.signErr != nil {
 			sp.Signed = false
 		}
-		states = append(states, &caseState{sp: sp, killed: map[int]bool{}, errored: map[string]bool{}, outcomes: map[int]string{}, errOut: map[string]string{}})
+		states = append(states, newCaseState(sp))
 	}
 	// ---- pass 1
+	t0 := time.Now()
 	var jobs []job
 	for _, cs := range states {
 		jobs = append(jobs, job{cs: cs})
 	}
 	e.runJobs(jobs)
+	fmt.Printf("INFO C17 pass 1: %d cases in %.1fs\n", len(jobs), time.Since(t0).Seconds())
 
 	// ---- pass 2 (+ re-planned attempts)
-	for attempt := 0; attempt < 3; attempt++ {
+	for attempt := 0; attempt < maxAttempts; attempt++ {
 		jobs = nil
 		for _, cs := range states {
 			if !cs.judgable {
@@ -193,15 +227,18 @@ func (e *engine) run() {
 			}
 			r := vlib.NewRand(cfg.Seed, "c17-errno", uint64(cs.sp.Case))
 			for _, pt := range cs.plan.Points {
-				if !cs.killed[pt.Index] {
+				if !cs.killed[pt.Index] && !cs.vanished[pt.Index] {
 					jobs = append(jobs, job{cs: cs, inj: &inject{Kill: true, Point: pt}, attempt: attempt})
 				}
 				errnos := []string{errnoChoices[r.Intn(len(errnoChoices))]}
 				if cfg.Thorough() {
 					errnos = errnoChoices
+					if strings.HasPrefix(pt.Name, "rename") {
+						errnos = append(append([]string{}, errnos...), "EXDEV")
+					}
 				}
 				for _, en := range errnos {
-					if !cs.errored[fmt.Sprintf("%d/%s", pt.Index, en)] {
+					if k := fmt.Sprintf("%d/%s", pt.Index, en); !cs.errored[k] && !cs.errGone[k] {
 						jobs = append(jobs, job{cs: cs, inj: &inject{Errno: en, Point: pt}, attempt: attempt})
 					}
 				}
@@ -213,6 +250,24 @@ func (e *engine) run() {
 		if attempt > 0 {
 			rep.Count("replanned_runs", int64(len(jobs)))
 		}
+		t1 := time.Now()
+		e.runJobs(jobs)
+		fmt.Printf("INFO C17 pass 2 attempt %d: %d injected runs in %.1fs\n", attempt, len(jobs), time.Since(t1).Seconds())
+	}
+
+	// ---- ptrace-driven cases: sweep on beyond pass 1's count until a kill run completes un-killed
+	// (the number of calls of a download varies from run to run; the sweep, not pass 1, bounds it)
+	for round := 0; round < 12; round++ {
+		jobs = nil
+		for _, cs := range states {
+			if cs.judgable && usesStepper(cs.sp) && !cs.extraEnd {
+				n := len(cs.plan.Points) + cs.extra
+				jobs = append(jobs, job{cs: cs, inj: &inject{Kill: true, Point: crashPoint{Index: n, Name: "beyond", What: "(a call beyond those of pass 1)"}}, attempt: 0})
+			}
+		}
+		if len(jobs) == 0 {
+			break
+		}
 		e.runJobs(jobs)
 	}
 
@@ -223,14 +278,21 @@ func (e *engine) run() {
 		if !cs.judgable {
 			continue
 		}
-		n := len(cs.plan.Points)
+		n := len(cs.plan.Points) - len(cs.vanished) + cs.extra
 		enumerated += n
-		k := 0
+		k := cs.extra
+		rep.Count("crash_points_beyond_pass1", int64(cs.extra))
+		rep.Count("crash_points_absent_in_rerun", int64(len(cs.vanished)))
+		if usesStepper(cs.sp) && !cs.extraEnd {
+			rep.Inconclusive("%s: the kill sweep did not reach the end of the operation", cs.sp.label())
+		}
 		for _, pt := range cs.plan.Points {
 			if cs.killed[pt.Index] {
 				k++
+			} else if cs.vanished[pt.Index] {
+				continue
 			} else {
-				rep.Inconclusive("%s: crash point %d (%s) could not be hit by a kill in 3 attempts", cs.sp.label(), pt.Index, pt.What)
+				rep.Inconclusive("%s: crash point %d (%s) could not be hit by a kill in %d attempts", cs.sp.label(), pt.Index, pt.What, maxAttempts)
 			}
 		}
 		killed += k
@@ -239,11 +301,17 @@ func (e *engine) run() {
 		}
 		errHit += len(cs.errored)
 		rep.Max("max_crash_points_per_operation", int64(n))
-		if len(cs.plan.Points) > 0 {
-			e.sampleCase(cs)
-		}
 	}
 	_ = errPlanned
+	sampled := map[string]bool{}
+	for _, t := range []string{tDownload, tZip, tSymlink, tFstree, tCopy} {
+		for _, cs := range states {
+			if cs.judgable && cs.sp.Target == t && !sampled[t] && len(cs.plan.Points) > 0 && (t != tDownload || cs.sp.Signed) {
+				sampled[t] = true
+				e.sampleCase(cs)
+			}
+		}
+	}
 	rep.Set("crash_points_enumerated", enumerated)
 	rep.Set("crash_points_killed", killed)
 	rep.Set("error_injections_confirmed", errHit)
@@ -254,7 +322,9 @@ func (e *engine) run() {
 	rep.Floor(enumerated > 0 && killed*100 >= enumerated*95, "crash points killed %d of %d enumerated", killed, enumerated)
 
 	// ---- concurrent readers
+	t2 := time.Now()
 	e.runReaders()
+	fmt.Printf("INFO C17 reader scenarios in %.1fs\n", time.Since(t2).Seconds())
 
 	rep.Assume("a crash is modelled as SIGKILL of the process immediately before a system call executes (strace syscall tampering); the kernel's file-system state at that instant is what a restarted process sees - loss of unsynced page-cache data on power failure is not modelled, durability is observed as the fsync call on the trace")
 	rep.Assume("strace 6.1 counts inject when= per syscall name and per thread; the operation runs on the main thread (LockOSThread in init) and every pass-2 trace is parsed to confirm which call was tampered with")
@@ -301,7 +371,7 @@ func traceExcerpt(dir string, n int) []string {
 	return keep
 }
 
-func (e *engine) violation(sp caseSpec, inj *inject, f finding, w *world, st *stateReport, res *opResult, dir string) {
+func (e *engine) violation(sp caseSpec, inj *inject, hit *sysEvent, f finding, w *world, st *stateReport, res *opResult, dir string) {
 	phase := "nofault"
 	if inj != nil {
 		phase = "error"
@@ -311,12 +381,19 @@ func (e *engine) violation(sp caseSpec, inj *inject, f finding, w *world, st *st
 	}
 	sig := fmt.Sprintf("C17:%s:%s:%s:%s", f.Kind, sp.Target, phase, f.Role)
 	what := fmt.Sprintf("%s: %s", sp.Target, f.Text)
-	if inj != nil && inj.Kill {
-		what = fmt.Sprintf("%s, process killed immediately before %s: %s", sp.Target, inj.Point.What, f.Text)
-	} else if inj != nil {
-		what = fmt.Sprintf("%s, %s injected into %s: %s", sp.Target, inj.Errno, inj.Point.What, f.Text)
+	call := ""
+	if inj != nil {
+		call = inj.Point.What
+		if hit != nil {
+			call = hit.short(w) // what the run's own trace shows as the tampered call
+		}
 	}
-	e.rep.Violation(sig, what, map[string]any{"spec": sp, "inject": inj, "finding": f, "state": st, "op_result": res,
+	if inj != nil && inj.Kill {
+		what = fmt.Sprintf("%s, process killed immediately before %s: %s", sp.Target, call, f.Text)
+	} else if inj != nil {
+		what = fmt.Sprintf("%s, %s injected into %s: %s", sp.Target, inj.Errno, call, f.Text)
+	}
+	e.rep.Violation(sig, what, map[string]any{"spec": sp, "inject": inj, "tampered_call": call, "finding": f, "state": st, "op_result": res,
 		"trace_tail": traceExcerpt(dir, 60)})
 }
 
@@ -332,14 +409,20 @@ func (e *engine) judge(j job, sp caseSpec, r *vlib.ChildResult) {
 		rep.Inconclusive("cannot start strace: %s", r.Signal)
 		return
 	}
-	if strings.Contains(r.StderrTail(2000), "C17-SETUP-FAILED") {
-		rep.Inconclusive("%s: setup failed: %s", sp.label(), r.StderrTail(400))
-		return
-	}
 	w := e.worldOf(sp, r.Dir)
 	tf, err := parseTrace(filepath.Join(r.Dir, "strace.out"))
 	if err != nil || tf.MainTid == 0 {
 		rep.Inconclusive("%s: no usable strace output for %s (%v) stderr: %s", sp.label(), r.Name, err, r.StderrTail(300))
+		return
+	}
+	if j.inj != nil && !tf.Begin {
+		// a re-planned attempt with a smaller ordinal tampered with the harness's own set-up: not a case
+		rep.Eval(1)
+		rep.Count("injections_before_operation", 1)
+		return
+	}
+	if strings.Contains(r.StderrTail(2000), "C17-SETUP-FAILED") {
+		rep.Inconclusive("%s: setup failed: %s", sp.label(), r.StderrTail(400))
 		return
 	}
 	var res *opResult
@@ -369,6 +452,11 @@ func (e *engine) judge(j job, sp caseSpec, r *vlib.ChildResult) {
 		rep.Count("ops_"+sp.Target, 1)
 		rep.Seen("dest_states", sp.Old)
 		rep.Seen("tmp_placement", sp.TmpMount)
+		if usesStepper(sp) {
+			rep.Count("cases_driven_by_ptrace_stepper", 1)
+		} else {
+			rep.Count("cases_driven_by_strace", 1)
+		}
 		if sp.NewSize == 0 || (sp.Old != "absent" && sp.OldSize == 0) {
 			rep.Count("cases_with_empty_content", 1)
 		}
@@ -394,12 +482,16 @@ func (e *engine) judge(j job, sp caseSpec, r *vlib.ChildResult) {
 			return
 		}
 		for _, f := range st.Findings {
-			e.violation(sp, nil, f, w, st, res, r.Dir)
+			e.violation(sp, nil, nil, f, w, st, res, r.Dir)
 		}
 		rep.Count("end_state_"+st.Dest, 1)
 		// syscall-order oracle (single files only)
 		if w.destKind == "file" {
-			fv := checkFsyncBeforeRename(pl, w, []string{w.dest})
+			dests := []string{w.dest}
+			if w.sigDest != "" {
+				dests = append(dests, w.sigDest)
+			}
+			fv := checkFsyncBeforeRename(pl, w, dests)
 			rep.Count("renames_onto_destination", int64(fv.Renames))
 			if res.Err == "" && fv.Renames == 0 {
 				rep.Inconclusive("%s: the operation succeeded but no rename onto the destination is on the trace", sp.label())
@@ -427,6 +519,14 @@ func (e *engine) judge(j job, sp caseSpec, r *vlib.ChildResult) {
 		if !died {
 			// the planned call never came (diverging run): judged as a plain run, re-planned
 			rep.Count("kill_runs_not_killed", 1)
+			if usesStepper(sp) && r.Done && tf.End {
+				// index addressing: this run simply had fewer mutating calls
+				if inj.Point.Index >= len(cs.plan.Points) {
+					cs.extraEnd = true
+				} else {
+					cs.vanished[inj.Point.Index] = true
+				}
+			}
 			return
 		}
 		st, err := w.inspect()
@@ -435,7 +535,7 @@ func (e *engine) judge(j job, sp caseSpec, r *vlib.ChildResult) {
 			return
 		}
 		for _, f := range st.Findings {
-			e.violation(sp, inj, f, w, st, nil, r.Dir)
+			e.violation(sp, inj, hit, f, w, st, nil, r.Dir)
 		}
 		if idx < 0 {
 			// killed, but not at a crash point of the plan: the state predicate was still evaluated
@@ -443,12 +543,19 @@ func (e *engine) judge(j job, sp caseSpec, r *vlib.ChildResult) {
 			rep.Note("%s: kill planned before %s landed elsewhere: %s", sp.label(), inj.Point.What, why)
 			return
 		}
-		if hit.Name != inj.Point.Name {
+		if hit.Name != inj.Point.Name && !usesStepper(sp) {
 			rep.Count("kills_off_plan", 1)
+			rep.Note("%s: kill planned before %s hit %s instead", sp.label(), inj.Point.What, hit.short(w))
 			return
 		}
 		if idx != inj.Point.Index {
 			rep.Count("kills_at_other_point", 1)
+		}
+		if idx >= len(cs.plan.Points) {
+			cs.extra++
+			rep.Count("crash_state_"+st.Dest, 1)
+			rep.Distinct(fmt.Sprintf("%s|kill|%d|%s", sp.sig(), idx, hit.Name))
+			return
 		}
 		if !cs.killed[idx] {
 			cs.killed[idx] = true
@@ -462,16 +569,21 @@ func (e *engine) judge(j job, sp caseSpec, r *vlib.ChildResult) {
 	}
 	// error injection
 	rep.Count("error_runs", 1)
-	if !r.Done || res == nil {
-		if r.Signal != "" || r.Exit != 0 {
-			// the process died on an injected error: that is a crash caused by the fault; judge the state
-			rep.Note("%s: child died (exit=%d signal=%q) after %s was injected into %s: %s", sp.label(), r.Exit, r.Signal, inj.Errno, inj.Point.What, r.StderrTail(300))
+	if idx < 0 || (hit.Name != inj.Point.Name && !usesStepper(sp)) {
+		// the error went into another call (e.g. a wake-up write of the Go runtime): not a case of the plan
+		rep.Count("errors_off_plan", 1)
+		if usesStepper(sp) && hit == nil && r.Done && tf.End {
+			cs.errGone[fmt.Sprintf("%d/%s", inj.Point.Index, inj.Errno)] = true // this run had fewer mutating calls
+			return
 		}
-		rep.Inconclusive("%s: error-injection run %s did not complete", sp.label(), r.Name)
+		if attemptNote < 10 {
+			attemptNote++
+			rep.Note("%s: %s planned for %s went elsewhere (%s)", sp.label(), inj.Errno, inj.Point.What, why)
+		}
 		return
 	}
-	if idx < 0 || hit.Name != inj.Point.Name {
-		rep.Count("errors_off_plan", 1)
+	if !r.Done || res == nil {
+		rep.Inconclusive("%s: child died (exit=%d signal=%q) after %s was injected into %s: %s", sp.label(), r.Exit, r.Signal, inj.Errno, inj.Point.What, r.StderrTail(400))
 		return
 	}
 	st, err := w.inspect()
@@ -481,7 +593,7 @@ func (e *engine) judge(j job, sp caseSpec, r *vlib.ChildResult) {
 	}
 	w.judgeReturn(st, *res, true)
 	for _, f := range st.Findings {
-		e.violation(sp, inj, f, w, st, res, r.Dir)
+		e.violation(sp, inj, hit, f, w, st, res, r.Dir)
 	}
 	key := fmt.Sprintf("%d/%s", idx, inj.Errno)
 	if !cs.errored[key] {
@@ -605,7 +717,7 @@ func (e *engine) replay() {
 		readerCasesOverride = old
 		return
 	}
-	cs := &caseState{sp: sp, killed: map[int]bool{}, errored: map[string]bool{}, outcomes: map[int]string{}, errOut: map[string]string{}}
+	cs := newCaseState(sp)
 	e.runJobs([]job{{cs: cs}})
 	if !cs.judgable || doc.Detail.Inject == nil {
 		return
@@ -622,3 +734,17 @@ func (e *engine) replay() {
 }
 
 var readerCasesOverride []caseSpec
+
+func newCaseState(sp caseSpec) *caseState {
+	return &caseState{sp: sp, killed: map[int]bool{}, errored: map[string]bool{}, outcomes: map[int]string{}, errOut: map[string]string{}, vanished: map[int]bool{}, errGone: map[string]bool{}}
+}
+
+func usesStepper(sp caseSpec) bool {
+	return sp.Target == tDownload || sp.Mech == "ptrace" || os.Getenv("C17_STEPPER_ALL") != ""
+}
+
+const maxAttempts = 7
+
+var attemptNote int
+
+var attemptDelta = []int{0, 0, 1, -1, 2, -2, 3}
